@@ -69,7 +69,8 @@ class Player:
         except Exception as e:
             ms, exc = None, (type(e).__name__, str(e)[:120])
             self.dead = True
-        return (sig(ms), it.configuration, it.context.get('v'), exc, P.log[mark:], it.time, it.final)
+        ctx = (it.context.get('v'), it.context.get('z'), len(it.context.get('w', ())))
+        return (sig(ms), it.configuration, ctx, exc, P.log[mark:], it.time, it.final)
 
 
 def fresh(sp, cond_truth, echoes=()):
@@ -82,9 +83,12 @@ def fresh(sp, cond_truth, echoes=()):
     return Player(it)
 
 
+PROTOCOL = [None]
+
+
 def snapshot(player, kind):
     if kind == 'pickle':
-        it2 = pickle.loads(pickle.dumps(player.it))
+        it2 = pickle.loads(pickle.dumps(player.it, protocol=PROTOCOL[0]))
     else:
         it2 = copy.deepcopy(player.it)
     return Player(it2)
@@ -134,6 +138,7 @@ def run(ch, tier):
                 raise Abandon('other: unexpected %s in the control run' % outs[-1][3][0])
             res.stats['control_ended_by_contract_error'] += 1
             break
+    PROTOCOL[0] = fs.pick([None, 2, 3, 4, 5, 0])
     bounds = list(range(1, len(script)))     # snapshot taken before script[b]
     if not bounds:
         return res
@@ -155,19 +160,25 @@ def run(ch, tier):
             res.stats['fault_crash_restore_' + kind] += 1
             again = None if len(script) - b < 3 else b + 1 + fs.choice(len(script) - b - 1)
             macro = 0
-            for i in range(b, len(script)):
-                if again == i:
+            # not in lock-step: the restored interpreter first runs alone to the end of the script, then the original
+            # does (in a drawn order) - two live interpreters that share anything would disturb each other
+            parties = [('restored', rest), ('original', orig)]
+            if fs.flag(1, 2):
+                parties.reverse()
+            for who, pl in parties:
+              for i in range(b, len(script)):
+                if again == i and who == 'restored':
                     try:
-                        rest = snapshot(rest, kind)
+                        pl = snapshot(pl, kind)
                     except Exception as e:
                         return res.fail('snapshot-failed', 'second %s raised %s: %s' % (kind, type(e).__name__, str(e)[:100]),
                                         chart=sp.describe(), boundary=b)
                     res.stats['fault_second_crash_' + kind] += 1
                 want = outs[i]
-                for who, pl in (('restored', rest), ('original', orig)):
+                if True:
                     got = pl.play(script[i])
                     if got != want:
-                        fields = ['macro step', 'configuration', 'context v', 'exception', 'executed code (cond entries: id, v, __old__.v, event, n)',
+                        fields = ['macro step', 'configuration', 'context (v, z, len(w))', 'exception', 'executed code (cond entries: id, v, __old__.v, event, n)',
                                   'time', 'final']
                         d = [(f, x, y) for f, x, y in zip(fields, got or (), want or ()) if x != y]
                         f, x, y = d[0] if d else ('result', got, want)
@@ -178,6 +189,8 @@ def run(ch, tier):
                                         second_snapshot_before=again)
                 if want is not None and want[0] is not None:
                     macro += 1
+                if pl.dead:
+                    break
             if macro:
                 res.nontrivial.add(fp((cfp, b, kind)))
                 if any(e[0] == 'cond' and e[3] is not None for o in outs[b:] if o for e in o[4]):
